@@ -19,6 +19,9 @@ OBSERVERS = {"get_sql", "__str__", "__repr__", "__hash__", "__eq__", "__ne__", "
              "get_value_sql", "get_name_sql", "is_aggregate", "needs_brackets", "left_needs_parens", "right_needs_parens"}
 
 
+HELPERS = ["do_join"]
+
+
 class Analysis:
     def __init__(self, repo):
         self.classes = {}
@@ -250,7 +253,15 @@ class Analysis:
             for m, (c, f) in sorted(om.items()):
                 observers.append({"cls": cls, "method": m, "effects": [e for e in self.effects_of(cls, f)],
                                   "set_iter": self.set_iterations(cls, f)})
-        return {"classes": classes, "builders": builders, "observers": observers, "replace": self.replace_table_table()}
+        # methods that a builder reaches through another object (Joiner.on/using/cross call query.do_join on the copy)
+        helpers = []
+        for cls in sorted(self.classes):
+            for m in HELPERS:
+                c, f = self.find_method(cls, m)
+                if f is not None:
+                    helpers.append({"cls": cls, "method": m, "defined_in": c, "effects": self.effects_of(cls, f)})
+        return {"classes": classes, "builders": builders, "observers": observers, "replace": self.replace_table_table(),
+                "helpers": helpers}
 
 
 def lean_s(s):
@@ -286,6 +297,10 @@ def render(rep):
     w("/-- (class, @builder method, effects in source order) -/")
     w("def builderEffects : List (Str × Str × List Eff) := [")
     w(",\n".join("  (%s, %s, %s)" % (lean_s(b["cls"]), lean_s(b["method"]), effs(b["effects"])) for b in rep["builders"]) + "]")
+    w("")
+    w("/-- (class, helper reached through another object — `do_join` via the Joiner —, effects in source order) -/")
+    w("def helperEffects : List (Str × Str × List Eff) := [")
+    w(",\n".join("  (%s, %s, %s)" % (lean_s(b["cls"]), lean_s(b["method"]), effs(b["effects"])) for b in rep["helpers"]) + "]")
     w("")
     w("/-- (class, observation method, effects, set-typed attributes it iterates) -/")
     w("def observerEffects : List (Str × Str × List Eff × List Str) := [")
